@@ -52,6 +52,14 @@ func drawCase(t *rapid.T) caseT {
 		c.LeafB = rapid.SampledFrom(leaves).Draw(t, "LB")
 	}
 	pool := hx.GenTree(t, c.LeafA, 0, 30, 2, false, "pool")
+	if rapid.IntRange(0, 2).Draw(t, "lookalikes") == 0 {
+		// data files that look like bundle metadata, but below the root: e.g. a downloaded bundle kept as a fixture
+		for _, p := range []string{"fixt/.datamon/" + hx.KSUID(3, 3) + "-bundle-files-0.yaml", "vend/.datamon/" + hx.KSUID(4, 4) + ".yaml", "vend/.datamon/x.yaml", "fixt/.datamon/notes.txt"} {
+			if rapid.Bool().Draw(t, "lookalike") {
+				pool.Files = append(pool.Files, hx.FileSpec{Path: p, Content: hx.Content(t, c.LeafA, 1, "lookalike_c")})
+			}
+		}
+	}
 	empty := rapid.SampledFrom([]string{"", "", "", "", "A", "B", "both"}).Draw(t, "empty")
 	for _, f := range pool.Files {
 		w := rapid.SampledFrom([]string{"A", "B", "same", "same", "diff", "diff"}).Draw(t, "where")
@@ -66,6 +74,11 @@ func drawCase(t *rapid.T) caseT {
 		ft := fileT{Path: f.Path, Where: w, CA: f.Content}
 		if w == "diff" {
 			cb := hx.Content(t, c.LeafB, 2, "cb")
+			if rapid.IntRange(0, 2).Draw(t, "samesize") == 0 {
+				// an edit that keeps the length (a flipped flag, a fixed-size record)
+				cb = ft.CA
+				cb.Seed += 1 + uint64(rapid.IntRange(0, 3).Draw(t, "seedshift"))
+			}
 			if cb.Size == ft.CA.Size && cb.Seed == ft.CA.Seed && cb.Kind == ft.CA.Kind {
 				cb.Seed++ // make sure the bytes differ
 				if cb.Size == 0 {
